@@ -183,7 +183,7 @@ def r2_marker_length(ctx, rep):
     ok = len([c for c in py.walk_calls(gs) if call_name(c).endswith("remove_prefixes")]) >= 3
     rep.ob("GenericSource strips markers by prefix, not by offset", ok, "", py.nloc(gs))
     # docmarks must differ pairwise (settings)
-    pi = py.func("ProjectSettings.__post_init__")
+    pi = py.ifunc("ProjectSettings.__post_init__")      # canonical form: the check may live in a helper method
     pev = astq.trace(pi)
     ok = any(e.kind == "raise" and any("combinations" in ast.unparse(l.iter) and "docmark" in " ".join(
         ast.unparse(x) for x in astq.expand_locals(l.iter, pi)) for l in e.loops) for e in pev)
